@@ -9,6 +9,8 @@ A history is a list of commands (JSON-able dicts):
   {'op': 'wipe'}                                         meson setup --wipe <bd> <src>
   {'op': 'edit', 'proj': 'top'|'sub', 'name': n, 'spec': spec|None}    rewrite the option file (None removes n)
   {'op': 'corrupt'}                                      truncate coredata.dat (next --reconfigure regenerates)
+  {'op': 'file', 'proj': p, 'state': 'options'|'txt'|None}   the option file is meson.options / meson_options.txt / deleted
+  (an 'edit' may carry 'style': how a file without declarations is written: empty / comment / blank / noop)
 
 `key` is written as on the command line: `t_str`, `sub:s_str`, `warning_level`, `sub:warning_level`.
 An option spec is {'t': 'string'|'boolean'|'combo'|'integer'|'array', 'd': default, ['c': choices (array: may be
@@ -78,22 +80,44 @@ def _dol(l: T.List[str]) -> str:
     return '[' + ', '.join("'" + x + "'" for x in l) + ']'
 
 
-def write_tree(src: str, files: T.Dict[str, T.Dict[str, dict]]) -> None:
-    """(re)write option files and the meson.build files that print every option of the current files"""
+FILE_NAMES = {'options': 'meson.options', 'txt': 'meson_options.txt'}
+# what a file without declarations looks like (all are read as "no options")
+EMPTY_STYLES = {'empty': '', 'comment': '# no options any more\n', 'blank': '\n   \n\t\n',
+                'noop': "# a syntax-valid no-op\n\n# end\n"}
+
+
+def write_tree(src: str, files: T.Dict[str, T.Dict[str, dict]], fstate: T.Optional[T.Dict[str, T.Optional[str]]] = None,
+               style: str = 'empty') -> None:
+    """(re)write option files and the meson.build files that print every option of the current files.
+    `fstate[proj]`: 'options' (meson.options), 'txt' (meson_options.txt) or None (no option file)."""
+    fstate = fstate or {'top': 'options', 'sub': 'options'}
+    eff = {p: (files[p] if fstate[p] is not None else {}) for p in ('top', 'sub')}
     for proj, d in (('top', src), ('sub', os.path.join(src, 'subprojects', 'sub'))):
         os.makedirs(d, exist_ok=True)
-        names = list(files[proj])
-        body = [f"project('{proj}', meson_version: '>=1.1', default_options: {_dol(PDO_TOP if proj == 'top' else PDO_SUB)})\n"]
+        names = list(eff[proj])
+        # default_options only name options the option file declares (plus builtin / sub:builtin entries)
+        own = PDO_TOP if proj == 'top' else PDO_SUB
+        pdo = [x for x in own if ':' in x.split('=')[0] or x.split('=')[0] in names]
+        body = [f"project('{proj}', meson_version: '>=1.1', default_options: {_dol(pdo)})\n"]
         for n in names + [BUILTIN]:
             body.append(f"message('OPT {proj}:{n} = @0@'.format(get_option('{n}')))\n")
         if proj == 'top':
-            body.append("if get_option('boom')\n  error('boom')\nendif\n")
-            body.append("if get_option('boom_late')\n  meson.add_postconf_script('false')\nendif\n")
-            body.append(f"subproject('sub', default_options: {_dol(SPCALL)})\n")
+            if 'boom' in names:
+                body.append("if get_option('boom')\n  error('boom')\nendif\n")
+            if 'boom_late' in names:
+                body.append("if get_option('boom_late')\n  meson.add_postconf_script('false')\nendif\n")
+            spc = [x for x in SPCALL if x.split('=')[0] in eff['sub']]
+            body.append(f"subproject('sub', default_options: {_dol(spc)})\n")
         with open(os.path.join(d, 'meson.build'), 'w') as f:
             f.write(''.join(body))
-        with open(os.path.join(d, 'meson.options'), 'w') as f:
-            f.write(''.join(option_line(n, files[proj][n]) for n in names))
+        for st, fn in FILE_NAMES.items():
+            path = os.path.join(d, fn)
+            if fstate[proj] == st:
+                text = ''.join(option_line(n, files[proj][n]) for n in files[proj])
+                with open(path, 'w') as f:
+                    f.write(text if files[proj] else EMPTY_STYLES[style])
+            elif os.path.exists(path):
+                os.remove(path)
 
 
 # ---------------------------------------------------------------- real commands
@@ -223,11 +247,13 @@ def run_history(init_files: T.Dict[str, T.Dict[str, dict]], hist: T.List[dict], 
     src = os.path.join(root, 'src')
     bd = os.path.join(root, 'b')
     files = {p: dict(d) for p, d in init_files.items()}
+    fstate: T.Dict[str, T.Optional[str]] = {'top': 'options', 'sub': 'options'}
+    style = 'empty'
     isteps = set(introspect_steps)
     out = []
     try:
         os.makedirs(src, exist_ok=True)
-        write_tree(src, files)
+        write_tree(src, files, fstate, style)
         for i, cmd in enumerate(hist):
             ob: T.Dict[str, T.Any] = {'rc': 'ok', 'msgs': None}
             if cmd['op'] == 'corrupt':
@@ -235,12 +261,17 @@ def run_history(init_files: T.Dict[str, T.Dict[str, dict]], hist: T.List[dict], 
                 cdf = os.path.join(bd, 'meson-private', 'coredata.dat')
                 if os.path.isfile(cdf):
                     open(cdf, 'w').close()
+            elif cmd['op'] == 'file':
+                # delete / re-create / rename the option file of a project
+                fstate[cmd['proj']] = cmd['state']
+                write_tree(src, files, fstate, style)
             elif cmd['op'] == 'edit':
                 if cmd['spec'] is None:
                     files[cmd['proj']].pop(cmd['name'], None)
                 else:
                     files[cmd['proj']][cmd['name']] = cmd['spec']
-                write_tree(src, files)
+                style = cmd.get('style', style)
+                write_tree(src, files, fstate, style)
             else:
                 p = subprocess.run(meson_argv(cmd, bd, src), stdout=subprocess.PIPE, stderr=subprocess.STDOUT,
                                    text=True, env=child_env(), timeout=300, cwd=root)
